@@ -63,7 +63,7 @@ def explore(ck):
         if kind == 'shuffled' and i % 8 == 0: c.verify = True; c.start = 1        # --verify --start 1 on an obfuscated, consistent chain
         c.meta['cbs'] = ['csv'] if (quick and i % 3) else ['csv', 'unspent', 'balances', 'opreturn', 'stats']
         cases.append(c)
-        p = copy.copy(c); p.id = c.id + 'p'; p.xor = None; p.meta = dict(c.meta, plain=True); cases.append(p)
+        p = copy.copy(c); p.id = c.id + 'p'; p.xor = None; p.meta = dict(c.meta, plain=True, fixed=True); c.meta['fixed'] = True; cases.append(p)
     def nontrivial(c, m):
         if c.xor is None: return None
         if c.meta.get('backward') or c.meta.get('maxfield') or c.meta.get('huge'): return (c.meta['kind'], c.meta['keylen'], c.meta['zero'])
